@@ -45,10 +45,21 @@ def run(ck: Check):
     rng = ck.rng
     n_models = 14 if ck.tier == "quick" else 120
     coq_items = []
-    for t in range(n_models):
-        kind = ["dense", "stack2d", "stack3d", "stack2d-walsh", "dense-walsh"][t % 5]
+    # systematic multi-channel / multi-layer stacks first (a wrong channel or kernel axis shows only with >= 2 channels / kernels)
+    fixed = [(name, shp, layers, par) for name, shp, layers in nets.SYSTEMATIC_STACKS
+             if shp[0] >= 2 or sum(1 for l in layers if l[0] == "conv") >= 2 or any(l[0] == "conv" and l[1].get("K", 1) >= 2 and l[1].get("depth", 1) >= 2 for l in layers)
+             for par in (("raw",) if len(shp) == 4 or name not in ("chan3-pad1-depth2", "conv-pool-conv-dense3") else ("raw", "walsh"))]
+    for t in range(n_models + len(fixed)):
         torch.manual_seed(ck.seed * 101 + t)
-        if kind.startswith("dense"):
+        if t >= n_models:
+            name, shp, layers, par = fixed[t - n_models]
+            kind = ("stack3d" if len(shp) == 4 else "stack2d") + ("-walsh" if par == "walsh" else "")
+            model = nets.make_custom(rng, shp, layers, param=par, tau=rng.choice([1.0, 4.0]))
+        else:
+            kind = ["dense", "stack2d", "stack3d", "stack2d-walsh", "dense-walsh"][t % 5]
+        if t >= n_models:
+            pass
+        elif kind.startswith("dense"):
             par = "walsh" if "walsh" in kind else "raw"
             widths = [rng.randrange(2, 8) for _ in range(rng.randrange(1, 4))]
             k = rng.choice([d for d in range(1, widths[-1] + 1) if widths[-1] % d == 0])
